@@ -404,6 +404,34 @@ func (t *Tr) assign(s *ast.AssignStmt, env Env, k func(Env) string) string {
 				b.lean, ctor(ty), fresh, t.arrow(), indent(k(eT), 2), t.arrow(), indent(k(eF), 2))
 		}
 	}
+	if len(s.Lhs) > 1 && len(s.Lhs) == len(s.Rhs) {
+		// parallel assignment `a, b := x, y`: every right-hand side is evaluated in the environment
+		// BEFORE the statement (fresh Lean names, so later lets cannot capture earlier ones)
+		e2 := env.clone()
+		var lets strings.Builder
+		for i := range s.Lhs {
+			id, ok := s.Lhs[i].(*ast.Ident)
+			if !ok {
+				fail(s.Pos(), "multi-assign target %T", s.Lhs[i])
+			}
+			old, had := env[id.Name]
+			if had && old.ty == TVal {
+				fail(s.Pos(), "multi-assign to an interface-typed variable")
+			}
+			want := TNone
+			if had {
+				want = old.ty
+			}
+			le, lt := t.expr(s.Rhs[i], env, want)
+			if id.Name == "_" {
+				continue
+			}
+			fresh := t.newName(id.Name)
+			e2[id.Name] = binding{lean: fresh, ty: lt}
+			fmt.Fprintf(&lets, "let %s : %s := %s\n", fresh, LeanTy(lt), le)
+		}
+		return lets.String() + k(e2)
+	}
 	if len(s.Lhs) != 1 || len(s.Rhs) != 1 {
 		fail(s.Pos(), "multi-assign")
 	}
